@@ -70,12 +70,11 @@ Definition tmidA_finish (m : tmid) (st : Z * list Z) (n next_end : Z) : Z * list
   let '(mem, offs) := st in
   (tmid_finish m mem n (Z.land next_end (Z.ones (t_nb m))), 0 :: fst (write_next (t_nb m) (offs, []) n next_end)).
 
-Definition tmidA_find (m : tmid) (fuel : nat) (count : nat) (st : Z * list Z) (word b e : Z) : option (option (Z * Z * Z * Z * Z)) :=
+Definition tmidA_find (m : tmid) (fuel : nat) (st : Z * list Z) (word b e : Z) : option (option (Z * Z * Z * Z * Z)) :=
   let '(mem, offs) := st in
   match tmid_find m fuel mem word b e with
-  | Some (Some (p, prob, bo, _, _)) =>
-      let inls := map (fun k => ReadInt57 mem (t_base m) (Z.of_nat k * t_tb m + t_wb m + 63) (t_nb m) (Z.ones (t_nb m))) (seq 0 count) in
-      let '(cb, ce) := read_next (t_nb m) (offs, inls) p in
+  | Some (Some (p, prob, bo, lowa, lowb)) =>
+      let '(cb, ce) := read_next2 (t_nb m) offs p lowa lowb in      (* ArrayBhiksha::ReadNext: offset table + the two inline values *)
       Some (Some (p, prob, bo, cb, ce))
   | Some None => Some None
   | None => None
@@ -148,7 +147,7 @@ Definition tuni_find (t : triemem) (w : Z) : option (pb * Z * Z) :=
 
 Definition mm_find (array : bool) (mm : midmem) (w lo hi : Z) : option (option (Z * Z * Z * Z * Z)) :=
   let fuel := S (S (S (mm_count mm))) in
-  if array then tmidA_find (mm_par mm) fuel (S (mm_count mm)) (mm_mem mm, mm_offs mm) w lo hi
+  if array then tmidA_find (mm_par mm) fuel (mm_mem mm, mm_offs mm) w lo hi
   else tmid_find (mm_par mm) fuel (mm_mem mm) w lo hi.
 
 (* words after the first; `mids` the remaining middle arrays; returns payload and child range (longest: empty range) *)
